@@ -583,6 +583,45 @@ func findExists(s string, from int) (int, int, string, string, string, bool) {
 	return st, en, nm, so, bd, ok
 }
 
+// objectHints: hypotheses quantified over objects (spec variables declared with a pointer type,
+// named bv$p_*) are instantiated at the function's pointer-valued SSA values declared before the
+// obligation, and at the values those instances mention through one more heap read is left to the
+// solver. Sound: instances of hypotheses.
+func (t *FnTrans) objectHints(o *Obligation) []string {
+	var terms []string
+	for _, pt := range t.ptrTerms {
+		if pt.line <= o.NLines {
+			terms = append(terms, pt.name)
+		}
+	}
+	if len(terms) == 0 {
+		return nil
+	}
+	var out []string
+	n := 0
+	for _, l := range t.lines[:o.NLines] {
+		if !strings.HasPrefix(l, "(assert ") || !strings.Contains(l, "(forall ((bv$p_") {
+			continue
+		}
+		pos := 0
+		for n < 120 {
+			s2, e2, nm, so, bd, ok := findForallP(l, pos, "(forall ((bv$p_")
+			if !ok {
+				break
+			}
+			pos = e2
+			if so != "Int" || strings.Contains(bd, "(forall ") {
+				continue
+			}
+			for _, g := range terms {
+				out = append(out, l[:s2]+substVar(bd, nm, g)+l[e2:])
+				n++
+			}
+		}
+	}
+	return out
+}
+
 func (t *FnTrans) assemble(o *Obligation) string {
 	var b strings.Builder
 	b.WriteString("; obligation " + o.Name + "\n")
@@ -638,6 +677,9 @@ func (t *FnTrans) assemble(o *Obligation) string {
 	}
 	if o.Expect != "sat" {
 		for _, h := range indexHints(t.lines[:o.NLines], o.Goal) {
+			b.WriteString(h + "\n")
+		}
+		for _, h := range t.objectHints(o) {
 			b.WriteString(h + "\n")
 		}
 	}
